@@ -465,7 +465,14 @@ def cases(rng, tier):
                     evs[-1].append(rng.choice(FORMS[1:]))        # the reply is a bytearray / memoryview
                 if rng.random() < 0.04:
                     evs[-1][2] = tlv(6, rand_bytes(rng, 8) + bytes(rng.choice(SIZES_253 + SIZES_64K[::4]) - 8)).hex()
-        yield {'k': 'replies', 'evs': evs}
+                elif rng.random() < 0.12:
+                    # replies of a kilobyte and more (sizes at which an implementation may switch to another way of writing)
+                    evs[-1][2] = tlv(6, rand_bytes(rng, 8) + bytes(rng.choice([500, 1000, 1015, 1016, 1017, 1023, 1024, 1025, 1500,
+                                                                               2048, 4096, 8800]) - 8)).hex()
+        c = {'k': 'replies', 'evs': evs}
+        if rng.random() < 0.4:
+            c['face'] = 'stream'       # the application is connected through a StreamFace (Unix / TCP socket)
+        yield c
     if not quick:
         for perm in itertools.permutations(range(4)):
             evs = [['i', bytes([0x10 + i] * (i + 1)).hex() if i != 2 else None, False] for i in range(4)]
@@ -702,7 +709,10 @@ def lp_alt(w):
 
 def run_replies(case):
     from ndn import encoding as enc, types
-    with AppRig('v2') as rig:
+    # case['face'] == 'stream': the application's face is a StreamFace (Unix / TCP socket): what one reply puts on the
+    # wire is the CONCATENATION of what it writes to the stream, in one or several writes
+    stream = case.get('face') == 'stream'
+    with AppRig('v2', face_kind='stream' if stream else 'mem') as rig:
         closures = []
 
         def handler(name, app_param, reply, context):
@@ -734,7 +744,10 @@ def run_replies(case):
                     ret.append(None)
                 except Exception as ex:          # noqa
                     ret.append(type(ex).__name__)
-                sent.append([x.hex() for x in rig.face.sent[n0:]])
+                if stream:
+                    sent.append([b''.join(rig.face.sent[n0:]).hex()] if rig.face.sent[n0:] else [])
+                else:
+                    sent.append([x.hex() for x in rig.face.sent[n0:]])
         return {'invocations': len(closures), 'sent': sent, 'raised': ret, 'seen_tok': seen_tok, 'errors': len(rig.loop.errors)}
 
 
